@@ -58,7 +58,10 @@ Rewrite rules (each application is counted per function and reported in the evid
       unit is a single module, so visibility has no semantic effect (Verus otherwise refuses contracts
       over private fields on public functions)
 
-Lost anchor / missing function / ambiguous match -> ExtractError (the check exits 2: undecided).
+Lost anchor / missing function / ambiguous match -> ExtractError (the check exits 2: undecided). Undecidedness is function-local
+where possible: a //@fn block whose hints lose their anchors, and a wrapper function whose //@stmts range cannot be located,
+are emitted as contract-only stubs (`#[verifier::external_body]`, body `unimplemented!()`): that function's own obligation is
+reported undecided, everything else in the unit is still verified against its contract.
 """
 import hashlib
 import os
@@ -778,36 +781,73 @@ def process(template_path, repo, meta, twin=None, stub=()):
                 block.append(mm.group(1))
                 i += 1
             i += 1
-            spec_text, sections = parse_block(block)
-            hs, o, c = S.find_fn(container, name)
-            body = S.src[o:c + 1]
-            bmask = code_mask(body)
-            if lb:
-                # the whole body of loop N (textual ordinal) of the function
-                lh = loop_headers(body, bmask)
-                k = int(lb.group(1))
-                if k >= len(lh):
-                    raise ExtractError("%s: loop %d not found (function has %d loops)" % (name, k, len(lh)))
-                s0, e1 = lh[k][1] + 1, lh[k][2]
-                fa, ta = "loop %d body" % k, norm(body[lh[k][0]:lh[k][1]])
-            else:
-                ia = [x.start() for x in re.finditer(re.escape(fa), body) if bmask[x.start()]]
-                ib = [x.start() for x in re.finditer(re.escape(ta), body) if bmask[x.start()]]
-                if len(ia) != 1 or len(ib) != 1:
-                    raise ExtractError("%s: statement-range anchors matched %d / %d times" % (name, len(ia), len(ib)))
-                s0, _ = stmt_bounds(body, bmask, ia[0])
-                _, e1 = stmt_bounds(body, bmask, ib[0])
-            if e1 <= s0:
-                raise ExtractError("%s: empty statement range" % name)
-            frag = "{" + body[s0:e1] + "}"
-            counts = {"R15": 1}
-            frag2 = apply_rewrites(frag, counts)
-            frag3 = splice(frag2, sections, name)
-            out.append(frag3.strip()[1:-1])
-            meta["items"].append({
-                "kind": "stmts", "file": rel, "container": container, "name": name, "emitted_as": name + "[range]",
-                "span": [o + s0, o + e1], "sha256": hashlib.sha256(body[s0:e1].encode()).hexdigest(),
-                "rewrites": counts, "from": fa, "to": ta})
+            try:
+                spec_text, sections = parse_block(block)
+                hs, o, c = S.find_fn(container, name)
+                body = S.src[o:c + 1]
+                bmask = code_mask(body)
+                if lb:
+                    # the whole body of loop N (textual ordinal) of the function
+                    lh = loop_headers(body, bmask)
+                    k = int(lb.group(1))
+                    if k >= len(lh):
+                        raise ExtractError("%s: loop %d not found (function has %d loops)" % (name, k, len(lh)))
+                    s0, e1 = lh[k][1] + 1, lh[k][2]
+                    fa, ta = "loop %d body" % k, norm(body[lh[k][0]:lh[k][1]])
+                else:
+                    ia = [x.start() for x in re.finditer(re.escape(fa), body) if bmask[x.start()]]
+                    ib = [x.start() for x in re.finditer(re.escape(ta), body) if bmask[x.start()]]
+                    if len(ia) != 1 or len(ib) != 1:
+                        raise ExtractError("%s: statement-range anchors matched %d / %d times" % (name, len(ia), len(ib)))
+                    s0, _ = stmt_bounds(body, bmask, ia[0])
+                    _, e1 = stmt_bounds(body, bmask, ib[0])
+                if e1 <= s0:
+                    raise ExtractError("%s: empty statement range" % name)
+                frag = "{" + body[s0:e1] + "}"
+                counts = {"R15": 1}
+                frag2 = apply_rewrites(frag, counts)
+                # the wrapper function around this range (nearest preceding `fn` header already emitted)
+                kw = len(out) - 1
+                while kw >= 0 and not re.match(r"^(\s*)fn \w+", out[kw].split("\n")[0]):
+                    kw -= 1
+                wrapper = re.match(r"^\s*fn (\w+)", out[kw]).group(1) if kw >= 0 else None
+                n_stmts = len([it for it in meta["items"] if it["kind"] == "stmts"])
+                if twin is not None and twin == "stmts#%d" % n_stmts:
+                    # vacuity twin of a statement-range wrapper: `assert(false)` in front of the range has to FAIL
+                    sections = [("hint", "start", "assert(false);")] + sections
+                frag3 = splice(frag2, sections, name)
+                out.append(frag3.strip()[1:-1])
+                meta["items"].append({
+                    "kind": "stmts", "file": rel, "container": container, "name": name, "emitted_as": name + "[range]",
+                    "wrapper": wrapper, "twin_key": "stmts#%d" % n_stmts,
+                    "span": [o + s0, o + e1], "sha256": hashlib.sha256(body[s0:e1].encode()).hexdigest(),
+                    "rewrites": counts, "from": fa, "to": ta})
+            except ExtractError as e:
+                # The statement range cannot be located on this tree (lost anchor). The wrapper function around it becomes a
+                # contract-only stub: its obligation is UNDECIDED, the rest of the unit is still verified.
+                k = len(out) - 1
+                while k >= 0 and not re.match(r"^(\s*)fn \w+", out[k].split("\n")[0]):
+                    k -= 1
+                if k < 0:
+                    raise
+                mh = re.match(r"^(\s*)fn (\w+)", out[k])
+                indent, wname = mh.group(1), mh.group(2)
+                b = k
+                while b < len(out) and out[b].rstrip() != indent + "{":
+                    b += 1
+                if b >= len(out):
+                    raise
+                del out[b + 1:]
+                out.insert(k, indent + "#[verifier::external_body]")
+                out.append(indent + "    unimplemented!()")
+                while i < len(tmpl) and tmpl[i].rstrip() != indent + "}":
+                    i += 1
+                if i >= len(tmpl):
+                    raise ExtractError("wrapper %s: closing brace not found" % wname)
+                out.append(tmpl[i])
+                i += 1
+                meta["items"].append({"kind": "fn", "file": rel, "container": container, "name": name, "emitted_as": wname,
+                                      "stubbed": "extraction: %s" % e, "rewrites": {"R15": 1}})
             continue
         m = re.match(r"^\s*//@(fn|struct)\s+(.*)$", ln)
         if not m:
